@@ -10,6 +10,11 @@
 //!          F<n>.<rid0>   n allocations with rid = tok = rid0+i   (expanded, n results)
 //!          D<k>.<start>.<stride>  k lookups of (start + i*stride) mod 32768 (expanded)
 //!          (runs of >= 3 results s<k> s<k+1> … are written S<k>.<count>)
+//!          w<ms>         (kind T only) real time passes: sleep   -> -
+//!          c             (kind T only) old_orphans_count()       -> n<count>
+//!   kind T (timed): after the final state `K=<lo>.<hi>,…`: clock readings (ns since the case started)
+//!          taken before and after every `o` and `c` operation, in order
+//! End-to-end and reader kinds (P, R, X, G, O) are produced by ../c02_e2e.rs.
 //! final    H=sid:rid:tok,…  into_handlers (sorted)   W=idx:word,…  non-zero bitmap words
 //!          R=rid:sid,…  request_to_stream   O=sid,…  orphanage keys   B=len(by_orphaning_times)
 //!          L=len(bitmap)
@@ -18,12 +23,17 @@ use scylla::client::verif_streams::{VerifHandlerMap, VerifLookup};
 use std::collections::{BTreeMap, BTreeSet};
 use vh::*;
 
+#[path = "../c02_e2e.rs"]
+mod e2e;
+
 #[derive(Clone, Copy, Debug)]
 enum Op {
     Alloc(u64, u64),
     Orphan(u64),
     Lookup(i16),
     Probe(u64),
+    Wait(u64),
+    Count,
 }
 
 fn hx(s: &str) -> u64 {
@@ -41,6 +51,8 @@ fn parse_ops(toks: &[&str]) -> Vec<Op> {
             "o" => v.push(Op::Orphan(hx(parts[0]))),
             "l" => v.push(Op::Lookup(hx(parts[0]) as i16)),
             "p" => v.push(Op::Probe(hx(parts[0]))),
+            "w" => v.push(Op::Wait(hx(parts[0]))),
+            "c" => v.push(Op::Count),
             "F" => {
                 let (n, r0) = (hx(parts[0]), hx(parts[1]));
                 for i in 0..n {
@@ -75,6 +87,11 @@ fn apply(m: &mut VerifHandlerMap, op: Op) -> String {
             VerifLookup::Handler { request_id, token } => format!("H{:x}.{:x}", request_id, token),
         },
         Op::Probe(tok) => (if m.is_pending(tok) { "1" } else { "0" }).into(),
+        Op::Wait(ms) => {
+            std::thread::sleep(std::time::Duration::from_millis(ms));
+            "-".into()
+        }
+        Op::Count => format!("n{:x}", m.old_orphans_count()),
     }
 }
 
@@ -113,8 +130,16 @@ fn run_case(case: &str) -> String {
     let ops = parse_ops(&f[1..]);
     let mut out: Vec<String> = Vec::with_capacity(ops.len() + 6);
     let mut m = VerifHandlerMap::new();
+    let timed = f[0] == "T";
+    let t0 = std::time::Instant::now();
+    let mut stamps: Vec<String> = Vec::new();
     for op in ops {
+        let stamped = timed && matches!(op, Op::Orphan(_) | Op::Count);
+        let lo = t0.elapsed().as_nanos();
         let r = catch(std::panic::AssertUnwindSafe(|| apply(&mut m, op)));
+        if stamped {
+            stamps.push(format!("{:x}.{:x}", lo, t0.elapsed().as_nanos()));
+        }
         match r {
             Ok(s) => out.push(s),
             Err(_) => {
@@ -142,6 +167,9 @@ fn run_case(case: &str) -> String {
             let keys: Vec<i16> = h.iter().map(|x| x.0).collect();
             if keys != snap.handler_ids {
                 out.push("X=handler-keys-differ".into());
+            }
+            if timed {
+                out.push(format!("K={}", if stamps.is_empty() { "-".to_string() } else { stamps.join(",") }));
             }
         }
         Err(_) => out.push("X=panic".into()),
@@ -205,6 +233,7 @@ impl Shadow {
             Op::Probe(tok) => {
                 let _ = self.m.is_pending(tok);
             }
+            Op::Wait(_) | Op::Count => {}
         }
     }
     fn bulk_fill(&mut self, n: u64) -> String {
@@ -224,6 +253,8 @@ fn op_text(op: Op) -> String {
         Op::Orphan(r) => format!("o{:x}", r),
         Op::Lookup(s) => format!("l{:x}", s),
         Op::Probe(t) => format!("p{:x}", t),
+        Op::Wait(ms) => format!("w{:x}", ms),
+        Op::Count => "c".into(),
     }
 }
 
@@ -359,13 +390,172 @@ fn gen_full(r: &mut Rng, fill: u64) -> String {
     toks.join(" ")
 }
 
+/// Timed cases: real time passes between orphaning and the next allocation.  With all ids in use an
+/// allocation must fail however old the orphans are; old_orphans_count is compared through the
+/// bracket of the runner's clock readings.
+fn gen_timed(r: &mut Rng, variant: u64) -> String {
+    let mut t = vec!["T".to_string()];
+    let pick_rids = |r: &mut Rng, kr: (u64, u64), lo: u64, hi: u64| -> Vec<u64> {
+        let k = r.range(kr.0, kr.1);
+        let mut v: Vec<u64> = Vec::new();
+        while (v.len() as u64) < k {
+            let x = r.range(lo, hi);
+            if !v.contains(&x) {
+                v.push(x);
+            }
+        }
+        v
+    };
+    let mut next = 0x10000u64;
+    let mut alloc = |t: &mut Vec<String>| {
+        t.push(format!("a{:x}.{:x}", next, next));
+        next += 1;
+    };
+    match variant {
+        0 => {
+            // exhaust, orphan, wait > 1 s, allocate (must fail), answer one orphan, allocate (that id), allocate (fail)
+            t.push("F8000.1".into());
+            let a = pick_rids(r, (3, 40), 1, 32768);
+            for x in &a {
+                t.push(format!("o{:x}", x));
+            }
+            t.push("w4b0".into());
+            alloc(&mut t);
+            alloc(&mut t);
+            t.push("c".into());
+            t.push(format!("l{:x}", a[0] - 1));
+            alloc(&mut t);
+            alloc(&mut t);
+            t.push("c".into());
+        }
+        1 => {
+            // old and young orphans
+            t.push("F8000.1".into());
+            let a = pick_rids(r, (3, 30), 1, 16000);
+            let b = pick_rids(r, (3, 30), 16001, 32768);
+            for x in &a {
+                t.push(format!("o{:x}", x));
+            }
+            t.push("w4b0".into());
+            for x in &b {
+                t.push(format!("o{:x}", x));
+            }
+            t.push("c".into());
+            alloc(&mut t);
+            t.push(format!("l{:x}", b[0] - 1));
+            t.push(format!("l{:x}", a[0] - 1));
+            alloc(&mut t);
+            alloc(&mut t);
+            alloc(&mut t);
+            t.push("c".into());
+        }
+        2 => {
+            // staggered: 600 ms + 600 ms
+            t.push("F8000.1".into());
+            let a = pick_rids(r, (3, 20), 1, 16000);
+            let b = pick_rids(r, (3, 20), 16001, 32768);
+            for x in &a {
+                t.push(format!("o{:x}", x));
+            }
+            t.push("w258".into());
+            for x in &b {
+                t.push(format!("o{:x}", x));
+            }
+            t.push("w258".into());
+            t.push("c".into());
+            alloc(&mut t);
+            t.push("w1f4".into());
+            t.push("c".into());
+            alloc(&mut t);
+        }
+        3 => {
+            // one id left
+            t.push("F7fff.1".into());
+            let a = pick_rids(r, (3, 20), 1, 32767);
+            for x in &a {
+                t.push(format!("o{:x}", x));
+            }
+            t.push("w44c".into());
+            alloc(&mut t);
+            alloc(&mut t);
+            t.push("c".into());
+        }
+        4 => {
+            // control: no time passes
+            t.push("F8000.1".into());
+            let a = pick_rids(r, (3, 40), 1, 32768);
+            for x in &a {
+                t.push(format!("o{:x}", x));
+            }
+            alloc(&mut t);
+            t.push("c".into());
+        }
+        _ => {
+            // small map, short random sleeps, many probes of the count
+            t.push("F64.1".into());
+            let mut budget = 1300u64;
+            for _ in 0..r.range(10, 40) {
+                match r.below(6) {
+                    0 | 1 => t.push(format!("o{:x}", r.range(1, 100))),
+                    2 => t.push(format!("l{:x}", r.below(100))),
+                    3 => alloc(&mut t),
+                    4 => t.push("c".into()),
+                    _ => {
+                        let ms = r.range(0, 400).min(budget);
+                        budget -= ms;
+                        t.push(format!("w{:x}", ms));
+                    }
+                }
+            }
+            t.push("c".into());
+        }
+    }
+    t.join(" ")
+}
+
+/// runs the cases on `threads` worker threads; results in the order of the cases
+fn run_parallel(cases: Vec<String>, threads: usize) -> Vec<(String, String)> {
+    let n = cases.len();
+    let next = std::sync::atomic::AtomicUsize::new(0);
+    let results: std::sync::Mutex<Vec<Option<String>>> = std::sync::Mutex::new(vec![None; n]);
+    std::thread::scope(|sc| {
+        for _ in 0..threads.min(n).max(1) {
+            sc.spawn(|| {
+                loop {
+                    let i = next.fetch_add(1, std::sync::atomic::Ordering::SeqCst);
+                    if i >= n {
+                        break;
+                    }
+                    let c = &cases[i];
+                    let o = match catch(std::panic::AssertUnwindSafe(|| e2e::run_case(c).unwrap_or_else(|| run_case(c)))) {
+                        Ok(o) => o,
+                        Err(e) => format!("runner-panic {}", e.replace(' ', "_")),
+                    };
+                    results.lock().unwrap()[i] = Some(o);
+                }
+            });
+        }
+    });
+    let res = results.into_inner().unwrap();
+    cases.into_iter().zip(res.into_iter().map(|x| x.unwrap_or_else(|| "runner-missing".into()))).collect()
+}
+
 fn main() {
     quiet_panics();
     let a = parse_args();
+    if let Some(i) = a.extra.iter().position(|x| x == "--case") {
+        // development aid: run one case, print the line
+        let c = a.extra[i + 1].clone();
+        let t = std::time::Instant::now();
+        let o = e2e::run_case(&c).unwrap_or_else(|| run_case(&c));
+        eprintln!("{} ms, {} bytes", t.elapsed().as_millis(), o.len());
+        println!("{} | {}", c, o);
+        return;
+    }
     let mut out = Out::create(&a.out);
     if let Some(rp) = &a.replay {
         for c in read_cases(rp) {
-            let o = run_case(&c);
+            let o = e2e::run_case(&c).unwrap_or_else(|| run_case(&c));
             out.case(&c, &o);
         }
         out.finish();
@@ -408,8 +598,57 @@ fn main() {
         } as usize;
         cases.push(gen_random_case(&mut r, "Q", 0, len));
     }
+    // 5. timed state-machine cases, end-to-end scenarios and reader cases: their own threads, started
+    //    first so that the sleeps overlap with the sequential state-machine cases
+    let mut par: Vec<String> = Vec::new();
+    // the heavy ones first
+    let nx = if thorough { 10 } else { 2 };
+    for k in 0..nx {
+        let (old, young) = match k % 3 {
+            0 => (r.range(20, 300), r.range(0, 100)),
+            1 => (r.range(1, 10), r.range(0, 5)),
+            _ => (r.range(100, 900), 0),
+        };
+        par.push(format!("X {} 32768 {} {} {} {} {}", r.below(1 << 30), r.range(1, 6), old, young, r.range(1100, 1400), 2600));
+    }
+    par.push(format!("G {} {} {}", r.below(1 << 30), r.range(2, 12), e2e::BIG));
+    if thorough {
+        for _ in 0..5 {
+            par.push(format!("G {} {} {}", r.below(1 << 30), r.range(2, 40), (256u64 << 20) + r.range(100, 200000)));
+        }
+        par.push(format!("X {} 32767 3 50 10 1200 2600", r.below(1 << 30)));
+    }
+    let nt = if thorough { 18 } else { 6 };
+    for k in 0..nt {
+        par.push(gen_timed(&mut r, k % 6));
+    }
+    let (np, nr) = if thorough { (150, 450) } else { (16, 32) };
+    for k in 0..np {
+        let n = match k % 4 {
+            0 => 2000,
+            1 => r.range(1025, 2000),
+            2 => r.range(200, 1024),
+            _ => r.range(2, 200),
+        };
+        par.push(format!("P {} {}", r.below(1 << 30), n));
+    }
+    for k in 0..nr {
+        let n = match k % 4 {
+            0 => 2000,
+            1 => r.range(1000, 2000),
+            2 => r.range(100, 1000),
+            _ => r.range(1, 100),
+        };
+        par.push(format!("R {} {} {}", r.below(1 << 30), n, r.range(1, 3)));
+    }
+    let big: Vec<u64> = if thorough { vec![e2e::BIG, (256 << 20) + 1, 256 << 20, (256 << 20) + 9, (300 << 20) + 12345] } else { vec![e2e::BIG] };
+    par.extend(e2e::gen_reader_cases(&mut r, if thorough { 3000 } else { 300 }, &big));
+    let handle = std::thread::spawn(move || run_parallel(par, 5));
     for c in cases {
         let o = run_case(&c);
+        out.case(&c, &o);
+    }
+    for (c, o) in handle.join().expect("parallel part") {
         out.case(&c, &o);
     }
     out.finish();
